@@ -1,6 +1,8 @@
 import AcraModel.Sql.RedactLemmas
 import AcraModel.Sql.ShapeLemmas
 import AcraModel.Sql.LogModel
+import AcraModel.Sql.LogSites
+import AcraModel.Sql.ErrText
 /-!
 # C16 — literal values from statements never appear in logs nor in the redacted form
 
@@ -117,6 +119,81 @@ theorem fact_log_statement_text :
     (logIdents.filter fun r => r.2.2.contains "queryWithHiddenValues").map (fun r => r.2.1) =
       ["AcraCensor.logAllowedQuery", "AcraCensor.logDeniedQuery", "PgProxy.handleQueryPacket",
        "Handler.ProxyClientConnection"] := by decide
+
+
+/-! ## facts about every log call site on the query path (`Generated/LogSites.lean`) -/
+
+section LogSites
+open AcraModel.Generated.LogSites AcraModel.Sql.LogSites
+-- the tables have several hundred rows: `decide` walks them recursively
+set_option maxRecDepth 100000
+
+/-- The walk covers both proxies, the query observers (encryptor, searchable filter, tokenizer, hmac), the response
+processors, AcraCensor and its handlers, the parser, and the function of acra-server that ends a session. -/
+theorem fact_walk_covers_query_path :
+    (["decryptor/postgresql/pg_decryptor.go", "decryptor/postgresql/protocol.go", "decryptor/postgresql/prepared_statements.go",
+      "decryptor/postgresql/data_encoder.go", "decryptor/mysql/response_proxy.go", "decryptor/mysql/prepared_statements.go",
+      "decryptor/mysql/data_encoder.go", "decryptor/base/decryptionNotification.go",
+      "encryptor/postgresql/queryDataEncryptor.go", "encryptor/postgresql/searchable_query_filter.go", "encryptor/postgresql/observer.go",
+      "encryptor/mysql/queryDataEncryptor.go", "encryptor/mysql/searchable_query_filter.go", "encryptor/mysql/observer.go",
+      "hmac/decryptor/postgresql/hashQuery.go", "hmac/decryptor/mysql/hashQuery.go", "hmac/dataEncryptor.go",
+      "pseudonymization/postgresql_tokenize_query.go", "pseudonymization/mysql_tokenize_query.go", "pseudonymization/dataTokenizer.go",
+      "masking/dataProcessor.go", "crypto/envelope_detector.go", "acra-censor/acra-censor_implementation.go",
+      "acra-censor/handlers/deny_handler.go", "sqlparser/ast_methods.go", "cmd/acra-server/common/listener.go"].all
+        fun f => walkedFiles.contains f) = true := by decide
+
+/-- Every call site has constant text in its message: no site prints a message made of variables only (such a site
+could print anything, and no captured entry could be told from it). -/
+theorem fact_sites_not_opaque : (logSites.all fun s => !isOpaque s.2.2.2) = true := by decide
+
+/-- **No tainted identifier reaches a log call.** In every function of the walked files, no argument of a printing
+call nor of `WithField/WithFields/WithError` on a logger mentions a name under which the code holds statement text,
+a literal, a bound value or a column value – except at the listed places, where the name holds a placeholder's own
+text (`?`, `:v1`). Lengths (`len(x)`) are not values. -/
+theorem fact_site_idents_untainted :
+    (siteIdents.all fun r => r.2.2.all fun i =>
+      !valueIdents.contains i || exemptions.any fun e => e.1 == r.1 && e.2.1 == r.2.1 && e.2.2.1 == i) = true := by decide
+
+/-- every exemption is in use (a stale one would hide a future leak under the same name) -/
+theorem fact_exemptions_used :
+    (exemptions.all fun e => siteIdents.any fun r => r.1 == e.1 && r.2.1 == e.2.1 && r.2.2.contains e.2.2.1) = true := by decide
+
+/-- The only statement text any function on the query path hands to a logger is `queryWithHiddenValues`, and these
+are the functions that do. -/
+theorem fact_statement_text_sites :
+    (siteIdents.filter fun r => r.2.2.contains "queryWithHiddenValues").map (fun r => (r.1, r.2.1)) =
+      [("acra-censor/acra-censor_implementation.go", "AcraCensor.logAllowedQuery"),
+       ("acra-censor/acra-censor_implementation.go", "AcraCensor.logDeniedQuery"),
+       ("decryptor/postgresql/pg_decryptor.go", "PgProxy.handleQueryPacket"),
+       ("decryptor/mysql/response_proxy.go", "Handler.ProxyClientConnection")] := by decide
+
+/-- **Errors that wrap a value.** `strconv`'s errors quote their input. Every conversion on the query path whose
+error can travel on (returned, logged, or used in a way the extractor does not recognise) converts configuration or
+a placeholder's number – all conversions of statement literals, bound parameters and column values either only test
+the error or pass it through `utils.ErrorWithoutValue`. (Before repo patch 81 the tokenizer and the MySQL/PostgreSQL
+value encoders returned the raw error and a dozen call sites logged it.) -/
+theorem fact_value_conversions_sanitized :
+    (conversions.all fun c =>
+      !escaping c.2.2.2.2 || nonValueConversions.any fun n => n.1 == c.1 && n.2.1 == c.2.1) = true := by decide
+
+/-- every entry of `nonValueConversions` is in use -/
+theorem fact_non_value_conversions_used :
+    (nonValueConversions.all fun n => conversions.any fun c => c.1 == n.1 && c.2.1 == n.2.1 && escaping c.2.2.2.2) = true := by decide
+
+/-- PostgreSQL's parser is called at one place only, `postgresql.ParseQuery`, which drops the `at or near "<token>"`
+part of a syntax error (the token can be a literal). (Before repo patch 82: three direct calls, errors logged at
+debug and – through the end of the session – at error level.) -/
+theorem fact_pg_parse_sanitized : pgParseCalls = [("encryptor/postgresql/observer.go", "ParseQuery")] := by decide
+
+/-- the matcher on examples: a formatted message fits its pattern, a constant pattern fits only itself, and statement
+text fits neither -/
+example : matchPieces ["Parsing error on query: ", ""] "Parsing error on query: " = true := by decide
+example : matchPieces ["parsedQuery: ", ", queryWithHiddenValues: ", ""] "parsedQuery: *sqlparser.Select, queryWithHiddenValues: select 1" = true := by decide
+example : matchPieces ["New query"] "New query" = true ∧ matchPieces ["New query"] "New query select 'x'" = false := by decide
+example : matchPieces ["Parsing error on query: ", ""] "select a from t where b = 'x'" = false := by decide
+example : levelOf "Debugf" = "debug" ∧ levelOf "Warningln" = "warning" ∧ levelOf "Printf" = "info" := by decide
+
+end LogSites
 
 /-- the facts the traversal proofs use, from the regenerated tables -/
 theorem tableFacts : TableFacts where
@@ -238,6 +315,33 @@ theorem unparseable_never_logged (c : Config) :
       · simp at hq; rw [hq]
   · split at hb <;> simp at hb
     rw [hb]
+
+
+/-! ## errors that reach log calls carry no value -/
+
+open ErrText in
+/-- **A conversion error says nothing about the value.** The text of `utils.ErrorWithoutValue(err)` for `strconv`'s
+error depends on the function and the cause only – two inputs that fail the same way give the same text (the text of
+the unrepaired error differs, see the example below). Compared with the real function on generated values: op `C16.numerr`. -/
+theorem error_without_value_hides_input (f : String) (c : Cause) (v w : String) :
+    withoutValue ⟨f, v, c⟩ = withoutValue ⟨f, w, c⟩ := rfl
+
+open ErrText in
+/-- **A PostgreSQL syntax error says nothing about the token next to it.** Whatever follows ` at or near ` in the
+parser's message – the token, which can be a literal or the rest of an unterminated string – the text `ParseQuery`
+returns is the same. Compared with the real function on generated statements: op `C16.pgerr`. -/
+theorem pg_error_hides_token (kind tok tok' : List Char) (pos : Nat) :
+    pgError (kind ++ atOrNear ++ tok) pos = pgError (kind ++ atOrNear ++ tok') pos := by
+  unfold pgError
+  rw [cut_append, cut_append atOrNear kind tok']
+
+open ErrText in
+/-- `strconv`'s own text does tell the inputs apart – the repair is not vacuous -/
+example : (NumError.text ⟨"ParseInt", "secret1", .syntax⟩ == NumError.text ⟨"ParseInt", "secret2", .syntax⟩) = false := by decide
+open ErrText in
+example : withoutValue ⟨"ParseInt", "secret1", .syntax⟩ = "strconv.ParseInt: invalid syntax" := by decide
+open ErrText in
+example : pgError "syntax error at or near \"'secret'\"".toList 27 = "syntax error at position 27".toList := by decide
 
 /-! ## non-vacuity -/
 
